@@ -36,6 +36,20 @@ pub(crate) fn shuffle_rng() -> StdRng {
     StdRng::seed_from_u64(seed)
 }
 
+thread_local! {
+    static SERVER_SEED: Cell<Option<u64>> = const { Cell::new(None) };
+}
+
+/// Sets the (thread-local) seed of the peer-selection generator of the next server spawned from
+/// this thread (`spawn_chitchat`); `None` restores the default (seeded from the thread generator).
+pub fn verif_set_server_seed(seed: Option<u64>) {
+    SERVER_SEED.with(|cell| cell.set(seed));
+}
+
+pub(crate) fn server_rng() -> Option<rand::rngs::SmallRng> {
+    SERVER_SEED.with(|cell| cell.get()).map(rand::rngs::SmallRng::seed_from_u64)
+}
+
 #[derive(Clone, Debug, Eq, PartialEq)]
 pub struct VerifNodeDigest {
     pub chitchat_id: ChitchatId,
